@@ -4,5 +4,6 @@ CONSTANTS
   RN = {"r", "s"}
   XN = {}
   Missing = "zz"
+  FX = {}
 INVARIANTS InvCheckExact InvCheckCount InvCheckAllowed
 CHECK_DEADLOCK FALSE
